@@ -293,6 +293,13 @@ def _refine_features(case):
         if any(not a["of"] & b["of"] for a, b in itertools.combinations(partners, 2)):
             feats.add("domain_overlaps_two_others")
             break
+    # a hit that starts between two hits which overlap each other beyond their margin: the overlap pass compares
+    # neighbours in start order only, so the two are never compared
+    ordered = sorted(hits, key=lambda h: (h["s"], h["e"]))
+    for i, first in enumerate(ordered):
+        for third in ordered[i + 2:]:
+            if _overlaps(prof, first, third):
+                feats.add("hit_starts_between_two_overlapping_hits")
     return sorted(feats)
 
 
